@@ -775,6 +775,32 @@ def r_nulled(e, R):
     def is_field(func, x):
         return isinstance(x, ast.Attribute) and x.attr in F and bool(set(e.pt.ev(func, x.value)) & ex)
 
+    # when are the fields nulled?  If every nulling store of shutdown() is executed only after the manager thread was joined,
+    # or when no manager thread exists, the MANAGER role can never observe a nulled field.
+    sd = a.shutdown
+    sg = e.cfg(sd)
+    selfn = sd.params[0]
+    null_nodes = [n for n in sg.nodes if n.kind == "stmt" and isinstance(n.ast, ast.Assign) and isinstance(n.ast.value, ast.Constant)
+                  and n.ast.value.value is None and any(isinstance(t, ast.Attribute) and isinstance(t.value, ast.Name) and t.value.id == selfn for t in n.ast.targets)]
+    joins = {n for n in sg.nodes for c in calls_in(n) if isinstance(c.func, ast.Attribute) and c.func.attr == "join" and e.objs(sd, c.func.value) & a.manager_objs}
+    thread_locals = {n.targets[0].id for n in func_nodes(sd) if isinstance(n, ast.Assign) and isinstance(n.targets[0], ast.Name)
+                     and ({v for v in e.pt.ev(sd, n.value)} & a.manager_objs)}
+    from .util import feasible_paths
+    manager_safe = bool(null_nodes)
+    witness = None
+    for nn in null_nodes:
+        for path in feasible_paths(e, sd, lambda x, nn=nn: x is nn):
+            joined = any(pn in joins for pn, _ in path)
+            no_thread = False
+            for pn, lab in path:
+                if pn.kind == "test":
+                    nt = none_test(pn.ast)
+                    if nt and isinstance(nt[0], ast.Name) and nt[0].id in thread_locals and not isinstance(pn.ast, ast.Name) and lab in ("T", "F") and lab != nt[1]:
+                        no_thread = True
+            if not (joined or no_thread):
+                manager_safe = False
+                witness = path
+    R.info["fields_nulled_only_after_manager_joined"] = manager_safe
     ctor = e.reach([a.init.qualname] + [c.methods["__init__"].qualname for cq, c in e.prog.classes.items()
                                         if e.pt.is_subclass(cq, a.executor_cls) and "__init__" in c.methods])
     entries = _role_entries(e)
@@ -843,6 +869,10 @@ def r_nulled(e, R):
         if safe[f.qualname]:
             R.ok("R-NULLED", inst + " (function only reachable through the submit gate / flag test)", e.loc(f, n))
             continue
+        if manager_safe and _only_manager_ungated(e, f.qualname, safe, gated_in):
+            R.ok("R-NULLED", inst + " (ungated only on the manager thread, and shutdown() nulls the fields only after joining it / when it does not exist)",
+                 e.loc(f, n))
+            continue
         if gated_in(f, n, n.attr):
             R.ok("R-NULLED", inst + " (dominated by a gate in this function)", e.loc(f, n))
             continue
@@ -854,6 +884,26 @@ def r_nulled(e, R):
                e.loc(f, n), chain, instance=inst)
     if n_loads < 8:
         raise AnalysisError(f"R-NULLED: only {n_loads} loads of nulled fields found (floor 8)")
+
+
+def _only_manager_ungated(e, q, safe, gated_in, _seen=None):
+    """Every ungated synchronous call chain into q starts in a manager-only function."""
+    seen = _seen or set()
+    if q in seen:
+        return True
+    seen.add(q)
+    if manager_only(e, q):
+        return True
+    callers = [(cq, k, c) for cq, k, c in e.redges().get(q, ()) if k in SYNC_KINDS and e.prog.funcs[cq].module.name != "__user__"]
+    if not callers:
+        return False
+    for cq, k, c in callers:
+        cf = e.prog.funcs[cq]
+        if safe.get(cq) or gated_in(cf, c):
+            continue
+        if not _only_manager_ungated(e, cq, safe, gated_in, seen):
+            return False
+    return True
 
 
 def _dominated_by_branch(g, n, t, label):
